@@ -34,7 +34,7 @@ def devices():
     return out
 
 
-SCHED = [None, None, None, [1, 1], [2, 5], [1, 9], [4, 1, 1, 6], [0, 40, 1000], [0, 150, 1000], 1, 3, 12]
+SCHED = [None, None, None, [1, 1], [2, 5], [1, 9], [4, 1, 1, 6], [0, 40, 1000, 0], [0, 150, 1000, 0], 1, 3, 12]
 
 
 @st.composite
